@@ -8,29 +8,47 @@ namespace FlexModel.Fac.VamLemmas
 open FlexModel.Fac FlexModel.Fac.Vam FlexModel.Fac.VamSpec Generated.Fac
 
 theorem step_cfg (s : State) (op : Op) :
-    (step s op).1.gated = s.gated ∧ (step s op).1.tGenVam = s.tGenVam := by
-  by_cases hg : op.gate = true <;> cases ht : trigger s op.r <;> simp [step, hg, ht]
+    (step s op).1.gated = s.gated ∧ (step s op).1.tGenVam = s.tGenVam ∧ (step s op).1.lfAfterSend = s.lfAfterSend := by
+  by_cases hg : op.gate = true <;> cases ht : trigger s op.r <;> by_cases hf : op.fail = true <;>
+    by_cases hl : s.lfAfterSend = true <;> simp [step, hg, ht, hf, hl]
 
+theorem with_lastLf_self (s : State) : { s with lastLf := s.lastLf } = s := by cases s; rfl
+
+/-- a report without a VAM: passive/idle, no trigger, or a failed transmission attempt; the state is unchanged except
+(unrepaired variant only) for the low-frequency timer -/
 theorem step_none (s : State) (op : Op) (h : (step s op).2 = none) :
-    (step s op).1 = s ∧ (op.gate = false ∨ trigger s op.r = none) := by
+    ∃ l, (step s op).1 = { s with lastLf := l } ∧ (s.lfAfterSend = true → l = s.lastLf) ∧
+      (op.gate = false ∨ trigger s op.r = none ∨ op.fail = true) := by
+  have same : (step s op).1 = s → (step s op).1 = { s with lastLf := s.lastLf } := fun e =>
+    e.trans (with_lastLf_self s).symm
   by_cases hg : op.gate = true
   · cases ht : trigger s op.r with
-    | none => simp [step, hg, ht]
-    | some k => simp [step, hg, ht] at h
-  · simp at hg; simp [step, hg]
+    | none => exact ⟨s.lastLf, same (by simp [step, hg, ht]), fun _ => rfl, Or.inr (Or.inl rfl)⟩
+    | some k =>
+      by_cases hf : op.fail = true
+      · by_cases hl : s.lfAfterSend = true
+        · exact ⟨s.lastLf, same (by simp [step, hg, ht, hf, hl]), fun _ => rfl, Or.inr (Or.inr hf)⟩
+        · exact ⟨_, by simp [step, hg, ht, hf, hl]; rfl, fun h => absurd h hl, Or.inr (Or.inr hf)⟩
+      · simp [step, hg, ht, hf] at h
+  · simp at hg
+    exact ⟨s.lastLf, same (by simp [step, hg]), fun _ => rfl, Or.inl hg⟩
 
 theorem step_some (s : State) (op : Op) (c : VamOut) (h : (step s op).2 = some c) :
-    op.gate = true ∧ ∃ k, trigger s op.r = some k ∧
-      c = { its := op.r.its, wall := op.wall, gdt := gdtOf op.r, lf := lfDue s op.wall, trig := k, rid := op.r.rid } ∧
+    op.gate = true ∧ op.fail = false ∧ ∃ k, trigger s op.r = some k ∧
+      c = { its := op.r.its, wall := op.wall, gdt := gdtOf op.r, lf := lfDue s op.wall || op.clusterOp, trig := k,
+            rid := op.r.rid } ∧
       (step s op).1.lastGdt = some (gdtOf op.r) ∧
-      (step s op).1.lastLf = (if lfDue s op.wall then some op.wall else s.lastLf) ∧
+      (step s op).1.lastLf = (if (lfDue s op.wall || op.clusterOp) = true then some op.wall else s.lastLf) ∧
       (step s op).1.isFirst = false := by
   by_cases hg : op.gate = true
   · cases ht : trigger s op.r with
     | none => simp [step, hg, ht] at h
     | some k =>
-      simp [step, hg, ht] at h
-      refine ⟨hg, k, rfl, h.symm, ?_, ?_, ?_⟩ <;> simp [step, hg, ht]
+      by_cases hf : op.fail = true
+      · by_cases hl : s.lfAfterSend = true <;> simp [step, hg, ht, hf, hl] at h
+      · simp [step, hg, ht, hf] at h
+        simp at hf
+        refine ⟨hg, hf, k, rfl, h.symm, ?_, ?_, ?_⟩ <;> simp [step, hg, ht, hf]
   · simp at hg; simp [step, hg] at h
 
 /-- what a firing / non-firing trigger says about the elapsed generationDeltaTime -/
@@ -91,23 +109,25 @@ theorem first_sim (s : State) (m : FirstSt) (op : Op) (hR : m.sent = s.lastGdt.i
     ∃ m', firstMon m (op, (step s op).2) = some m' ∧ m'.sent = (step s op).1.lastGdt.isSome := by
   cases hc : (step s op).2 with
   | none =>
-    obtain ⟨hs, hwhy⟩ := step_none s op hc
+    obtain ⟨l, hs, _, hwhy⟩ := step_none s op hc
     rw [hs]
     refine ⟨m, ?_, hR⟩
     simp only [firstMon]
     rw [if_neg]
     intro hh
     simp only [Bool.and_eq_true, Bool.not_eq_true'] at hh
-    rcases hwhy with hg | ht
-    · rw [hg] at hh; simp at hh
+    obtain ⟨⟨hsent, hgate⟩, hfail⟩ := hh
+    rcases hwhy with hg | ht | hf
+    · rw [hg] at hgate; simp at hgate
     · have : s.lastGdt = none := by
         cases hl : s.lastGdt with
         | none => rfl
-        | some x => rw [hR, hl] at hh; simp at hh
+        | some x => rw [hR, hl] at hsent; simp at hsent
       rw [trigger_first s op.r this] at ht
       simp at ht
+    · rw [hf] at hfail; simp at hfail
   | some c =>
-    obtain ⟨_, k, _, _, hg, _, _⟩ := step_some s op c hc
+    obtain ⟨_, _, k, _, _, hg, _, _⟩ := step_some s op c hc
     exact ⟨{ sent := true }, rfl, by rw [hg]; rfl⟩
 
 /-! content -/
@@ -120,7 +140,7 @@ theorem content_sim (s : State) (op : Op) :
   cases hc : (step s op).2 with
   | none => exact ⟨(), rfl⟩
   | some c =>
-    obtain ⟨hg, k, _, hcx, _, _, _⟩ := step_some s op c hc
+    obtain ⟨hg, _, k, _, hcx, _, _, _⟩ := step_some s op c hc
     refine ⟨(), ?_⟩
     simp only [contentMon]
     rw [if_pos]
@@ -128,8 +148,9 @@ theorem content_sim (s : State) (op : Op) :
     refine ⟨hg, rfl, rfl, rfl, ?_⟩
     exact gdtOk_gdtOf op.r
 
-/-! LF -/
-def LfRel (s : State) (m : LfSt) : Prop := m.lastLf = s.lastLf ∧ (s.isFirst = true → s.lastLf = none)
+/-! LF (repaired variant `lfAfterSend`: the timer follows the transmissions) -/
+def LfRel (s : State) (m : LfSt) : Prop :=
+  s.lfAfterSend = true ∧ m.lastLf = s.lastLf ∧ (s.isFirst = true → s.lastLf = none)
 
 theorem lfDue_eq (s : State) (wall : Nat) (h : s.isFirst = true → s.lastLf = none) :
     lfDue s wall = noneOrSince s.lastLf T_LF wall := by
@@ -144,18 +165,26 @@ theorem lfDue_eq (s : State) (wall : Nat) (h : s.isFirst = true → s.lastLf = n
 
 theorem lf_sim (s : State) (m : LfSt) (op : Op) (hR : LfRel s m) :
     ∃ m', lfMon m (op, (step s op).2) = some m' ∧ LfRel (step s op).1 m' := by
-  obtain ⟨hL, h0⟩ := hR
+  obtain ⟨hA, hL, h0⟩ := hR
+  have hA' : (step s op).1.lfAfterSend = true := by rw [(step_cfg s op).2.2]; exact hA
   cases hc : (step s op).2 with
   | none =>
-    obtain ⟨hs, _⟩ := step_none s op hc
-    rw [hs]; exact ⟨m, rfl, hL, h0⟩
+    obtain ⟨l, hs, hl, _⟩ := step_none s op hc
+    rw [hs, hl hA, with_lastLf_self s]; exact ⟨m, rfl, hA, hL, h0⟩
   | some c =>
-    obtain ⟨_, k, _, hcx, _, hlf, hfirst⟩ := step_some s op c hc
-    have hw : c.lf = noneOrSince m.lastLf T_LF op.wall := by
-      rw [hcx, hL]; exact lfDue_eq s op.wall h0
-    refine ⟨{ lastLf := if c.lf then some op.wall else m.lastLf }, by simp only [lfMon, hw, if_true], ?_⟩
-    refine ⟨?_, fun h => by rw [hfirst] at h; simp at h⟩
-    rw [hlf, hcx, hL]
+    obtain ⟨_, _, k, _, hcx, _, hlf, hfirst⟩ := step_some s op c hc
+    have hw : noneOrSince m.lastLf T_LF op.wall = lfDue s op.wall := by
+      rw [hL]; exact (lfDue_eq s op.wall h0).symm
+    have hclf : c.lf = (lfDue s op.wall || op.clusterOp) := by rw [hcx]
+    refine ⟨{ lastLf := if c.lf then some op.wall else m.lastLf }, ?_, hA', ?_, fun h => by rw [hfirst] at h; simp at h⟩
+    · simp only [lfMon, hw, hclf]
+      rw [if_pos]
+      constructor
+      · intro h; simp [h]
+      · intro h
+        simp only [Bool.or_eq_true] at h
+        exact h
+    · rw [hlf, hclf, hL]
 
 /-! min gap -/
 def MinRel (strict : Bool) (s : State) (m : MinGapSt) : Prop :=
@@ -171,10 +200,10 @@ theorem minGap_sim (strict : Bool) (s : State) (m : MinGapSt) (op : Op) (hR : Mi
   obtain ⟨hcfg, hL⟩ := hR
   have hmin : T_GENVAMMIN = 100 := by decide
   have hcfg' : ((step s op).1.gated = true ∨ (strict = false ∧ T_GenVamMin ≤ (step s op).1.tGenVam)) := by
-    rw [(step_cfg s op).1, (step_cfg s op).2]; exact hcfg
+    rw [(step_cfg s op).1, (step_cfg s op).2.1]; exact hcfg
   cases hc : (step s op).2 with
   | none =>
-    obtain ⟨hs, _⟩ := step_none s op hc
+    obtain ⟨l, hs, _, _⟩ := step_none s op hc
     refine ⟨_, rfl, hcfg', ?_⟩
     intro t ht
     rw [hs]
@@ -184,7 +213,7 @@ theorem minGap_sim (strict : Bool) (s : State) (m : MinGapSt) (op : Op) (hR : Mi
     unfold hiNext
     split <;> omega
   | some c =>
-    obtain ⟨_, k, htr, hcx, hg, _, _⟩ := step_some s op c hc
+    obtain ⟨_, _, k, htr, hcx, hg, _, _⟩ := step_some s op c hc
     have hck : c.trig = k := by rw [hcx]
     have hcond : (monoNext m.mono m.hi op.r.its &&
         (strict || decide (c.trig ≤ 1))) = true → gapOk m.last op.r.its T_GenVamMin = true := by
@@ -237,13 +266,13 @@ theorem maxGap_sim (R G : Nat) (s : State) (m : MaxGapSt) (op : Op) (hR : MaxRel
   have hmin : T_GENVAMMIN = 100 := by decide
   have hcfg := step_cfg s op
   have hcfg' : (step s op).1.tGenVam ≤ G ∧ T_GenVamMin ≤ G ∧ G ≤ T_GenVamMax ∧ R + G ≤ 65536 := by
-    rw [hcfg.2]; exact ⟨hT, hG1, hG2, hRR⟩
+    rw [hcfg.2.1]; exact ⟨hT, hG1, hG2, hRR⟩
   simp only [T_GenVamMax, T_GenVamMin] at hG1 hG2
   cases hts : op.r.its with
   | none =>
     cases hc : (step s op).2 with
     | none =>
-      obtain ⟨hs, _⟩ := step_none s op hc
+      obtain ⟨l, hs, _, _⟩ := step_none s op hc
       refine ⟨{ m with ok := false }, by simp only [maxGapMon, hts], ?_⟩
       rw [hs]
       refine ⟨⟨hT, hG1, hG2, hRR⟩, ?_⟩
@@ -257,23 +286,24 @@ theorem maxGap_sim (R G : Nat) (s : State) (m : MaxGapSt) (op : Op) (hR : MaxRel
   | some ts =>
     cases hc : (step s op).2 with
     | none =>
-      obtain ⟨hs, hwhy⟩ := step_none s op hc
-      have hfacts : (m.ok && op.gate && spaced m.prev ts R) = true → ∀ t, m.last = some t →
+      obtain ⟨l, hs, _, hwhy⟩ := step_none s op hc
+      have hfacts : (m.ok && op.gate && !op.fail && spaced m.prev ts R) = true → ∀ t, m.last = some t →
           t ≤ ts ∧ ts < t + G := by
         intro hok t ht
-        simp only [Bool.and_eq_true] at hok
-        obtain ⟨⟨hmok, hgate⟩, hsp⟩ := hok
+        simp only [Bool.and_eq_true, Bool.not_eq_true'] at hok
+        obtain ⟨⟨⟨hmok, hgate⟩, hnf⟩, hsp⟩ := hok
         obtain ⟨hlg, p, hp, hpb⟩ := hL t ht
         obtain ⟨h1, h2⟩ := hpb hmok
         rw [hp] at hsp
         simp only [spaced, decide_eq_true_eq] at hsp
-        rcases hwhy with hg | htn
+        rcases hwhy with hg | htn | hf
         · rw [hg] at hgate; simp at hgate
         · have hd := trigger_none_diff s op.r (t % 65536) ts htn hlg hts
           have he := gdt_diff_eq t ts (by omega) (by omega)
           rw [he] at hd
           omega
-      have hnb : ¬ ((m.ok && op.gate && spaced m.prev ts R) = true ∧ beyond m.last T_GenVamMax ts = true) := by
+        · rw [hf] at hnf; simp at hnf
+      have hnb : ¬ ((m.ok && op.gate && !op.fail && spaced m.prev ts R) = true ∧ beyond m.last T_GenVamMax ts = true) := by
         rintro ⟨hok, hb⟩
         cases hml : m.last with
         | none => rw [hml] at hb; simp [beyond] at hb
@@ -283,7 +313,7 @@ theorem maxGap_sim (R G : Nat) (s : State) (m : MaxGapSt) (op : Op) (hR : MaxRel
           have hb := of_decide_eq_true hb
           have := hfacts hok t hml
           omega
-      refine ⟨{ m with prev := some ts, ok := m.ok && op.gate && spaced m.prev ts R }, ?_, ?_⟩
+      refine ⟨{ m with prev := some ts, ok := m.ok && op.gate && !op.fail && spaced m.prev ts R }, ?_, ?_⟩
       · simp only [maxGapMon, hts]
         rw [if_neg hnb]
       · rw [hs]
@@ -292,11 +322,11 @@ theorem maxGap_sim (R G : Nat) (s : State) (m : MaxGapSt) (op : Op) (hR : MaxRel
         obtain ⟨h1, _⟩ := hL t ht
         exact ⟨h1, ts, rfl, fun hok => hfacts hok t ht⟩
     | some c =>
-      obtain ⟨_, k, htr, hcx, hg, _, _⟩ := step_some s op c hc
-      have hcond : (m.ok && op.gate && spaced m.prev ts R) = true → within m.last (T_GenVamMax + R) ts = true := by
+      obtain ⟨_, _, k, htr, hcx, hg, _, _⟩ := step_some s op c hc
+      have hcond : (m.ok && op.gate && !op.fail && spaced m.prev ts R) = true → within m.last (T_GenVamMax + R) ts = true := by
         intro hok
         simp only [Bool.and_eq_true] at hok
-        obtain ⟨⟨hmok, _⟩, hsp⟩ := hok
+        obtain ⟨⟨⟨hmok, _⟩, _⟩, hsp⟩ := hok
         cases hml : m.last with
         | none => rfl
         | some t =>
